@@ -15,7 +15,7 @@ func init() {
 		Explanation: "Decides necessary structural conditions of a faithful commit/tag codec, not byte equality: (codec-field-coverage) for Commit and Tag the exported fields read by encode equal the exported fields " +
 			"written by the decode state machine (a field decoded but never encoded, or encoded but never decoded, makes decode∘encode lossy); (header-key-routing) the header keys isStandardHeader excludes from ExtraHeaders on encode " +
 			"are exactly the keys the commit scanner routes to dedicated fields, and the signature keys stripped by isSignatureHeader are exactly the keys routed to Signature/SignatureSHA256; " +
-			"(view-not-retained) no slice obtained from bufio ReadSlice/Peek in plumbing/object is used after the reader was read again. Not decided: byte-exact re-encoding; identity/date parsing equal to git's.",
+			"(view-not-retained) no slice obtained from bufio ReadSlice/Peek in plumbing/object is used after the reader was read again; (continuation-decided-by-separator) parseExtraHeader decides whether an extra header may continue on the next line from the presence of the separating blank (pieces of the split, found flag, index), never from the length of the value, so `key \\n` followed by continuation lines stays one header. Not decided: byte-exact re-encoding; identity/date parsing equal to git's.",
 		Assumptions: []string{},
 		Run:         runC02,
 	})
@@ -219,6 +219,7 @@ var codecs = []codecSpec{{"Commit", "commitScanner"}, {"Tag", "tagScanner"}}
 
 func runC02(c *Ctx) {
 	p := c.P
+	checkContinuationBySeparator(c, "continuation-decided-by-separator")
 	const r1 = "codec-field-coverage"
 	for _, cs := range codecs {
 		tn := p.lookupType(objShort, cs.typ)
